@@ -488,4 +488,32 @@ theorem runWorker_bisync (pol : Policy) (cfg : Cfg) (cur : Nat) :
       | errExists => simp [workerTarget, applyReqs]
       | errModule => simp [workerTarget, applyReqs]
 
+/-! ### composition: a worker's run over `a ++ b` is its run over `a` followed
+    by its run over `b` from the state and target `a` left behind -/
+
+theorem runPlain_append_ok (pol : Policy) (cfg : Cfg) :
+    ∀ (a : List Entry) (st : RState) (t : Target) (b : List Entry), (runPlain pol cfg st t a).out = .ok →
+      (runPlain pol cfg st t (a ++ b)).tgt =
+        (runPlain pol cfg (runPlain pol cfg st t a).st (runPlain pol cfg st t a).tgt b).tgt ∧
+      (runPlain pol cfg st t (a ++ b)).out =
+        (runPlain pol cfg (runPlain pol cfg st t a).st (runPlain pol cfg st t a).tgt b).out
+  | [], st, t, b, _ => by simp [runPlain_nil]
+  | e :: a, st, t, b, h => by
+    cases hr : replay pol cfg st (viewOf t e) e with
+    | mk rs p =>
+      obtain ⟨out, st'⟩ := p
+      cases out with
+      | ok =>
+        obtain ⟨_, h2, h3, h4⟩ := runPlain_cons_ok pol cfg st t e a rs st' hr
+        obtain ⟨_, g2, _, g4⟩ := runPlain_cons_ok pol cfg st t e (a ++ b) rs st' hr
+        have ih := runPlain_append_ok pol cfg a st' (applyReqs t rs) b (by rw [← h2]; exact h)
+        rw [List.cons_append, g4, g2, h3, h4]
+        exact ih
+      | errExists =>
+        have := (runPlain_cons_err pol cfg st t e a rs _ st' (by simp) hr).2.1
+        rw [this] at h; cases h
+      | errModule =>
+        have := (runPlain_cons_err pol cfg st t e a rs _ st' (by simp) hr).2.1
+        rw [this] at h; cases h
+
 end GunYu.Restore
